@@ -3,6 +3,10 @@
 import json, os
 V = os.path.dirname(os.path.abspath(__file__))
 CHECKS = {
+ "C06": dict(
+  text="Randomised search (rapid) over server programs with 1-4 security definitions, global and per-operation requirements (absent, [], AND/OR lists with scope subsets, optional authentication) x credential sets (absent / valid / invalid per transport, random granted scopes); generated with the swagger binary built from the tree, compiled with a reflection harness installing convention-based authenticators, driven in-process. Oracle: reference evaluator of the effective requirement (handler reached, 401/403, principal identity, no authenticator on open operations).",
+  note="Credentials are modelled per transport (all basic schemes share the Authorization header, all oauth2 schemes the bearer token); optional authentication with a refused credential is unspecified.",
+  tech="property-based testing (rapid): program generation + model-based testing of generated security enforcement against a reference evaluator"),
  "C03": dict(
   text="Randomised search (rapid) over server programs: specs with parameters of every location, type, collectionFormat and flag combination (one catalogue-drawn focus parameter per operation) are generated with the swagger binary built from the tree, compiled together with a reflection harness that installs recording handlers, and driven in-process with valid requests plus every single deviation of every parameter (dropped, emptied, boundary-mutated, malformed, repeated, other header case, body mutated/malformed/absent/null, wrong content type). Oracle: three-valued reference binder written from Swagger 2.0 semantics, cross-checked with go-openapi/validate on the parsed values. Listed known findings (boolean converter, byte bodies, lenient date-time, missing default consumer) are excluded by signature.",
   note="Names are plain (identifier hostility is C01/C08's subject); cases the Swagger 2.0 text leaves open are 'unspecified' and assert nothing (listed in the evidence assumptions).",
